@@ -161,7 +161,7 @@ def cmdStep (cls opts : String) (ops : List String) : String :=
           match takeStmt 16 (op.drop 2).toString.toList [] with
           | some (ts, []) =>
             let (s', r) := s.triple .stopIteration ts
-            let dirty := decide (s'.enc.unpin ≠ s.enc.unpin)
+            let dirty := decide (s'.enc.idle ≠ s.enc.idle)
             s := s'
             out := out ++ [match r with | .ok f => fr f | .error e => "!" ++ e.name ++ (if dirty then "~" else "")]
           | _ => out := out ++ ["?bad-op"]
@@ -169,7 +169,7 @@ def cmdStep (cls opts : String) (ops : List String) : String :=
           match takeStmt 16 (op.drop 2).toString.toList [] with
           | some (ts, []) =>
             let (s', r) := s.quad .stopIteration ts
-            let dirty := decide (s'.enc.unpin ≠ s.enc.unpin)
+            let dirty := decide (s'.enc.idle ≠ s.enc.idle)
             s := s'
             out := out ++ [match r with | .ok f => fr f | .error e => "!" ++ e.name ++ (if dirty then "~" else "")]
           | _ => out := out ++ ["?bad-op"]
@@ -179,7 +179,7 @@ def cmdStep (cls opts : String) (ops : List String) : String :=
             match parseTerm gid, parseStmts sts with
             | some g, some triples =>
               let (s', frames, err) := s.graph .runtimeError g triples
-              let dirty := decide (s'.enc.unpin ≠ s.enc.unpin) || decide (s'.flow.rows.length ≠ s.flow.rows.length) || !frames.isEmpty
+              let dirty := decide (s'.enc.idle ≠ s.enc.idle) || decide (s'.flow.rows.length ≠ s.flow.rows.length) || !frames.isEmpty
               s := s'
               let fs := "+".intercalate (frames.map fun f => "F" ++ hexOfBytes (writeDelimited f))
               out := out ++ [(if frames.isEmpty then "-" else fs) ++ (match err with | some e => "!" ++ e.name ++ (if dirty then "~" else "") | none => "")]
